@@ -432,6 +432,10 @@ inline void bigTotals(Ctx& c, long j)
         }
         sizes.push_back(left);
     }
+    else if (shape == 3)
+        sizes = {10, total - 10};  // one huge LAST segment, followed by trailing bytes (below)
+    else if (shape == 4)
+        sizes = {1, total - 2, 1};  // one huge MIDDLE segment, followed by trailing bytes (below)
     else
     {
         size_t left = total;
@@ -457,6 +461,13 @@ inline void bigTotals(Ctx& c, long j)
         Bytes tr;
         if (shape == 2 && sizes[i] < 60000 && i % 2)
             tr = Bytes(5, 0xE9);
+        if (shape >= 3 && i == 1)
+        {
+            // declared length + trailing bytes reach 65536 and more: the bytes behind the message header no longer fit 16 bits
+            tr = Bytes(std::max<size_t>(100, 65536 - sizes[i] + r.below(50)), 0xE7);
+            ++h.trailingCases;
+            c.count("segments_whose_length_plus_trailing_bytes_exceed_16_bits");
+        }
         f.raw = buildFrame(2, st.dev, wire::MT_DATA, st.stream, seq, {m}, tr);
         if (seq == 65535)
             ++h.wraps;
@@ -754,20 +765,20 @@ inline void randomCase(Ctx& c, long idx)
 
 inline long count(Ctx& c)
 {
-    return 36 + 24 + 3 + 3 + 2 + (c.thorough() ? 3000000 : 40000);
+    return 36 + 40 + 3 + 3 + 2 + (c.thorough() ? 3000000 : 40000);
 }
 inline void run(Ctx& c, long idx)
 {
     if (idx < 36)
         return allMerges(c, idx);
-    if (idx < 60)
+    if (idx < 76)
         return bigTotals(c, idx - 36);
-    if (idx < 63)
-        return manySegments(c, idx - 60);
-    if (idx < 66)
-        return manyEndpoints(c, idx - 63);
-    if (idx < 68)
-        return longGap(c, idx - 66);
+    if (idx < 79)
+        return manySegments(c, idx - 76);
+    if (idx < 82)
+        return manyEndpoints(c, idx - 79);
+    if (idx < 84)
+        return longGap(c, idx - 82);
     randomCase(c, idx);
 }
 
